@@ -2,6 +2,7 @@ package symex
 
 import (
 	"fmt"
+	"os"
 	"go/constant"
 	"go/token"
 	"go/types"
@@ -28,6 +29,18 @@ func (e *Engine) addOblig(st *State, kind, clause string, props []string, goal *
 	if st.dead || e.pure > 0 {
 		return
 	}
+	if dbg := os.Getenv("VCHECK_NORMDEBUG"); dbg != "" && goal != nil && strings.Contains(e.cur.name(st, kind, clause), dbg) {
+		ni := e.normFor(st)
+		cs := []*smt.Term{goal}
+		if goal.Op == "and" {
+			cs = goal.Args
+		}
+		for i, c := range cs {
+			n := ni.normalizeB(c)
+			fmt.Fprintf(os.Stderr, "NORM %d:\n  before: %s\n  after:  %s\n", i, c.String(), n.String())
+		}
+	}
+	goal = e.normGoal(st, goal)
 	ctx := e.cur
 	if ctx.fc != nil && ctx.fc.Opts["props"] != "" {
 		props = append(append([]string(nil), props...), strings.Fields(ctx.fc.Opts["props"])...)
